@@ -630,7 +630,7 @@ def m2d_case(ctx, real, add, y0, m0, vals, interp, minthr):
     # shrink: a 2..3-month window around the offending month, then small integer values
     months = month_seq(y0, m0, len(vals))
     cands = []
-    for lo, hi in ((at, at + 2), (at - 1, at + 1), (at - 1, at + 2)):
+    for lo, hi in [(at, at + 2), (at - 1, at + 1), (at - 1, at + 2)] + [(q, q + 2) for q in range(min(len(vals) - 1, 24))]:
         if 0 <= lo and hi <= len(vals) and hi - lo >= 2 and hi - lo < len(vals):
             w = vals[lo:hi]
             cands.append((months[lo][0], months[lo][1], [float(round(x)) % 50 + 1 for x in w]))
